@@ -14,6 +14,7 @@ pub(super) fn finalize_untyped_function(
 ) -> Result<()> {
     func_compiler.current.global_layout = build_untyped_global_layout(&func_compiler);
     func_compiler.current.compute_global_layout_hash();
+    func_compiler.ensure_jumps_in_range(func_span)?;
     func_compiler.current.finalize_bytecode();
 
     parent.mark_captures_from_nested(&func_compiler);
